@@ -4,6 +4,9 @@ CONSTANTS
   S = 3
   Ws = {0, 1, 2, 3}
   WriterTyped = {TRUE, FALSE}
+  Reversed = {FALSE}
+  FnStep = 2
+  Isolated = TRUE
   Named = {TRUE}
 INVARIANT TypeOK
 PROPERTY Terminates
